@@ -108,9 +108,11 @@ def render(items, L):
             hdr = "union" + L.sp + it["name"] + L.sp + "{"
             body = []
             for b in it["branches"]:
-                inner = render([b["def"]], Layout(canonical=True)).strip("\n")
+                # the member's doc comment lines stand before its `N ->` line (and before a deprecation line)
+                bare = dict(b["def"], comment=None)
+                inner = render([bare], Layout(canonical=True)).strip("\n")
                 inner = inner.replace("\n", L.nl + L.ind)
-                s = ""
+                s = comment_lines(b["def"].get("comment"), L, L.ind)
                 if b.get("dep") is not None:
                     s += L.ind + '[deprecated("%s")]' % b["dep"] + L.nl
                 s += L.ind + str(b["disc"]) + L.arrow + inner
@@ -413,7 +415,7 @@ class AstGen:
             sub.n = self.n + 100 * (j + 1)
             sub.records, sub.enums = self.records, self.enums
             bd = sub.message() if r.below(2) else sub.struct()
-            bd["comment"], bd["opcode"] = None, None
+            bd["comment"], bd["opcode"] = (self.comment() if self.comments and r.below(3) == 0 else None), None
             bd["readonly"] = False
             for f in bd["fields"]:
                 f["comment"] = None
